@@ -106,6 +106,13 @@ struct btls_socket
 	    int ssl_condition;
 	    int ssl_wants;
 
+	    /* Data accepted by btls_send() and handed to OpenSSL, which
+	       has sealed it in a TLS record but not yet managed to
+	       write all of that record to the TCP socket. The
+	       SSL_write() call must be repeated with the same data. */
+	    char *wpend_buf;
+	    int wpend_len;
+
 	    char raddr[XCM_ADDR_MAX+1];
 
 	    int64_t cnts[XCM_TP_NUM_MESSAGING_CNTS];
@@ -390,6 +397,10 @@ static void conn_deinit(struct xcm_socket *s, bool owner)
     struct btls_socket *bts = TOBTLS(s);
 
     SSL_free(bts->conn.ssl);
+
+    ut_free(bts->conn.wpend_buf);
+    bts->conn.wpend_buf = NULL;
+    bts->conn.wpend_len = 0;
 
     if (owner)
 	xpoll_bell_reg_del(s->xpoll, bts->conn.bell_reg_id);
@@ -1006,6 +1017,55 @@ err_deinit:
     return -1;
 }
 
+/* Have each SSL_write() call produce no more than one TLS record, to
+   know exactly how much data OpenSSL has taken in case that record
+   could not be written in its entirety. */
+#define BTLS_MAX_WRITE (16384)
+
+/* Attempts to complete a SSL_write() operation where OpenSSL has
+   sealed the data in a TLS record, but failed to write all of it to
+   the TCP socket. Returns 0 if there is no such operation pending (any
+   more). */
+static int try_finish_write(struct xcm_socket *s)
+{
+    struct btls_socket *bts = TOBTLS(s);
+
+    if (bts->conn.wpend_len == 0)
+	return 0;
+
+    bts->conn.ssl_condition = 0;
+    bts->conn.ssl_wants = 0;
+
+    UT_SAVE_ERRNO;
+    int rc = SSL_write(bts->conn.ssl, bts->conn.wpend_buf,
+		       bts->conn.wpend_len);
+    UT_RESTORE_ERRNO(write_errno);
+
+    if (rc > 0) {
+	ut_assert(rc == bts->conn.wpend_len);
+
+	LOG_LOWER_DELIVERED_PART(s, rc);
+	XCM_TP_CNT_BYTES_INC(bts->conn.cnts, to_lower, rc);
+
+	bts->conn.wpend_len = 0;
+
+	return 0;
+    }
+
+    if (rc == 0)
+	process_ssl_close(s);
+    else
+	process_ssl_event(s, XCM_SO_SENDABLE, rc, write_errno);
+
+    TP_RET_ERR_IF_STATE(s, bts, conn_state_closed, EPIPE);
+
+    TP_RET_ERR_IF_STATE(s, bts, conn_state_bad, bts->conn.badness_reason);
+
+    errno = EAGAIN;
+
+    return -1;
+}
+
 static int btls_send(struct xcm_socket *__restrict s,
 		     const void *__restrict buf, size_t len)
 {
@@ -1025,6 +1085,12 @@ static int btls_send(struct xcm_socket *__restrict s,
 
     if (len == 0)
 	return 0;
+
+    if (try_finish_write(s) < 0)
+	return -1;
+
+    if (len > BTLS_MAX_WRITE)
+	len = BTLS_MAX_WRITE;
 
     bts->conn.ssl_condition = 0;
     bts->conn.ssl_wants = 0;
@@ -1052,6 +1118,23 @@ static int btls_send(struct xcm_socket *__restrict s,
 
     TP_RET_ERR_IF_STATE(s, bts, conn_state_bad, bts->conn.badness_reason);
 
+    if (bts->conn.ssl_wants == XCM_SO_SENDABLE) {
+	/* OpenSSL has consumed the data, and parts of the resulting
+	   TLS record may already be sent. The only way forward is to
+	   repeat this very SSL_write(). Thus, the data is accepted,
+	   and a copy of it kept until the record is written. */
+	if (bts->conn.wpend_buf == NULL)
+	    bts->conn.wpend_buf = ut_malloc(BTLS_MAX_WRITE);
+
+	memcpy(bts->conn.wpend_buf, buf, len);
+	bts->conn.wpend_len = len;
+
+	LOG_SEND_ACCEPTED(s, buf, len);
+	XCM_TP_CNT_BYTES_INC(bts->conn.cnts, from_app, len);
+
+	return len;
+    }
+
     errno = EAGAIN;
 
     return -1;
@@ -1073,6 +1156,9 @@ static int btls_receive(struct xcm_socket *__restrict s, void *__restrict buf,
     TP_RET_IF_STATE(bts, conn_state_closed, 0);
 
     TP_RET_ERR_UNLESS_STATE(s, bts, conn_state_ready, EAGAIN);
+
+    if (try_finish_write(s) < 0 && errno != EAGAIN)
+	return errno == EPIPE ? 0 : -1;
 
     bts->conn.ssl_condition = 0;
     bts->conn.ssl_wants = 0;
@@ -1164,6 +1250,11 @@ static void conn_update(struct xcm_socket *s)
 	return;
     }
 
+    /* regardless of what the application is waiting for, the socket
+       needs attention as soon as the pending record can be written */
+    if (bts->conn.state == conn_state_ready && bts->conn.wpend_len > 0)
+	bts->btcp_socket->condition |= XCM_SO_SENDABLE;
+
     xpoll_bell_reg_mod(s->xpoll, bts->conn.bell_reg_id, false);
 
     xcm_tp_socket_update(bts->btcp_socket);
@@ -1212,6 +1303,8 @@ static int btls_finish(struct xcm_socket *s)
 	LOG_FINISH_SAY_BUSY(s, bts->conn.state);
 	return -1;
     case conn_state_ready:
+	if (try_finish_write(s) < 0)
+	    return -1;
 	return xcm_tp_socket_finish(bts->btcp_socket);
     case conn_state_bad:
 	errno = bts->conn.badness_reason;
